@@ -54,6 +54,21 @@ def e2(weight=1, **opts):
     return {"engine": "e2", "opts": sorted(opts.items()), "weight": weight}
 
 
+def e3(mode, weight=1, **opts):
+    return {"engine": "e3", "opts": [("mode", mode)] + sorted(opts.items()), "weight": weight, "minimise": False}
+
+
+IO_RULE = ("one run = a random file in the simulated store, random store parameters (block size, max request size, "
+           "io parallelism 1-8, buffer budget from 64 B to 256 MiB), 1-4 client tasks submitting 1-4 requests of sorted "
+           "ranges (empty, overlapping, contained, adjacent, far apart) with random priorities, some holding results "
+           "unconsumed; every storage read parks at the gate and completes in seeded order; distinct = distinct "
+           "(completion order, parameters); non-trivial = a request with >= 2 ranges or concurrent reads parked")
+WRITER_RULE = ("one run = a random chunk sequence (0 B .. 17 MiB, below/at/above the 5 MiB part size) written through "
+               "ObjectWriter, then shutdown / abort / drop; part uploads park at the gate and complete in seeded order "
+               "with injected errors and connection resets; the destination is probed after every storage step; "
+               "distinct = distinct (completion order, size, chunk count); non-trivial = more than one storage step")
+
+
 def chk(batches, rule, text, **kw):
     d = {"batches": batches, "rule": rule, "level_text": text, "level_note": LEVEL_NOTE}
     d.update(kw)
@@ -94,11 +109,19 @@ CHECKS = {
     "C20": chk([e1("seq", 1)], SEQ_RULE, "As C19 for zone-map, bloom-filter and n-gram indices with random parameters."),
     "C24": chk([e1("conc", 1, stable=0)], CONC_RULE, "Index creation/optimisation racing with column rewrites and compaction in all commit orders; indexed = unindexed query results afterwards.",
                required_probes=["overlapped", "txn-committed"]),
+    "C30": chk([e3("io", 3), e3("io", 1, faults=1), e3("io", 1, drop=1)], IO_RULE,
+               "Seeded search over range lists, store parameters and read completion orders against the real ScanScheduler/FileScheduler; "
+               "one buffer per range with the file's bytes; every request completes (stuck = violation); dropping the scheduler resolves pending requests.",
+               required_probes=["request-ok", "reads-issued"]),
+    "C31": chk([e3("writer", 2), e3("writer", 1, faults=1)], WRITER_RULE,
+               "Seeded search over chunk sequences, part completion orders and part/complete failures against the real ObjectWriter; "
+               "object equals the concatenation after shutdown, nothing visible before, nothing left after abort/drop/failure.",
+               required_probes=["shutdown-ok", "multipart"]),
     "C33": chk([e2(1)], E2_RULE, "Partial claim: latest-version discovery under arbitrary listing order and staging files, via the commit-protocol races (fresh reader resolves the highest committed version)."),
 }
 
 # properties whose checks are registered in MANIFEST.json (clean on the unchanged tree)
-REGISTERED = ["C01", "C02", "C03", "C04", "C05", "C06", "C07", "C10", "C11", "C12", "C13", "C14", "C19", "C20", "C24", "C33"]
+REGISTERED = ["C01", "C02", "C03", "C04", "C05", "C06", "C07", "C10", "C11", "C12", "C13", "C14", "C19", "C20", "C24", "C30", "C31", "C33"]
 
 PURE = "pure function of its inputs: no task, timer, storage call, clock, fault or second party for a scheduler or fault injector to decide (DESIGN.md section 6)"
 NOT_APPLICABLE = {
